@@ -558,4 +558,8 @@ def run(ctx):
         ok = len(dec) == 1 and prim_of(cfg.callee_full(dec[0])) == "f64" and not other and not ar
         ctx.ob("R12c", "f64::deserialize", ok, "f64::from_le_bytes of the first 8 bytes, no arithmetic" if ok else
                "<f64 as Serialize>::deserialize no longer decodes with f64::from_le_bytes only (%s, %s)" % (other, ar), b.where)
+    # "reads back identical from every database variant": the file-only variant reads through one shared OS handle and
+    # returns bytes of the wrong offset unless the cursor discipline holds (R23b)
+    from rules import C23
+    C23.cursor_rule(ctx)
     return 0
